@@ -53,7 +53,7 @@ def uuid_persist(ctx):
     news = F.effects(gi, lambda e: e.name == 'uuid4', depth=1)
     ok = bool(news) and all(any(
         op == 'NotIn' and param_of(l, 'key') and has(r, 'self', '_map')
-        for op, l, r in F.guard_compares(e.call, e.fn)) or any(
+        for op, l, r in F.guard_compares(e.call, e.fn, e.bind)) or any(
         has(x, 'self', '_map') and param_of(x, 'key')
         for x in [e.control()]) for e in news)
     ctx.ob(R, 'UuidMap.__getitem__|lookup-before-new', ok, gi.node,
